@@ -24,6 +24,8 @@ GEOS = [
     {"so": "shampoo", "shapes": [[6, 3]], "block": 3, "merge": 3, "row_scale": [[0, 3, 1e3]]},
     {"so": "shampoo", "shapes": [[2, 2, 3]], "block": 1024, "merge": 2},    # rank 3, exponent 6
     {"so": "shampoo", "shapes": [[6, 2, 6]], "block": 3, "merge": 2},       # 2x2 blocks around a small middle axis
+    # skip_preconditioning_any_dim_gt EQUAL to the largest dimension: "greater than" does not skip it
+    {"so": "shampoo", "shapes": [[4, 3]], "block": 1024, "merge": 3, "skip_dim_gt": 4},
     # Adafactor grafting with its parameter-scale factor, on ordinary and on near-zero parameters (RMS << 1e-3)
     {"so": "shampoo", "shapes": [[4, 3]], "block": 1024, "merge": 3, "mbps": True},
     {"so": "shampoo", "shapes": [[4, 3]], "block": 1024, "merge": 3, "mbps": True, "param_scale": 1e-5},
